@@ -23,11 +23,13 @@ func execOrthoRouting(g *graph.DGraph, routes []routableEdge, params graph.Param
 			if r.ns[i-1].IsVirtual {
 				sp[1] += layerh
 			}
-			r.Points = append(r.Points, sp)
-			r.Points = append(r.Points, [2]float64{sp[0], sp[1] + halfLayerSpacing})
-
 			ep := endPoint(r.ns[i])
-			r.Points = append(r.Points, [2]float64{ep[0], ep[1] - halfLayerSpacing})
+			// bend halfway through the space between the two layers, whatever the height of the upper node
+			bendY := ep[1] - halfLayerSpacing
+
+			r.Points = append(r.Points, sp)
+			r.Points = append(r.Points, [2]float64{sp[0], bendY})
+			r.Points = append(r.Points, [2]float64{ep[0], bendY})
 			r.Points = append(r.Points, ep)
 		}
 	}
